@@ -4,24 +4,24 @@ PROP = {
     "level": "proof",
     "harness_cmd": "c16",
     "run_file": "Run/C16Run.v",
-    "obligation_files": ["Props/C16.v", "Syn/Qualify.v", "Syn/QualifyProofs.v"],
+    "obligation_files": ["Props/C16.v", "Syn/Qualify.v", "Syn/QualifyProofs.v", "Syn/Full.v", "Syn/FullRel.v", "Syn/FullProofs.v", "Syn/FullSound.v", "Syn/QualifyFull.v", "Syn/QualifyFullProofs.v"],
     "count_lists": {"c16_counts": ["S_compared", "S_skipped_unsupported", "S_skipped_out_of_fuel", "S_skipped_laziness"]},
     "trusted_base": [KERNEL, TABLES, HARNESS, NOAX,
                      "modelled, not verified: the parser model coq/Syn/Parse.v (Identifiers chain with AddMap / AddArgs / AddThis layers as a scope stack with a pure lookup; OuterIdents and Recursive as functions of the lookups that reach a layer) is tied to the implementation AST-for-AST on both texts of every case; the reference semantics coq/Sem/Ref.v is C01's",
                      "the qualified program is computed by the harness on its own surface tree (free identifier = not bound by let/func/closure parameter, not pi/true/false, not a static function) and rendered with every attribute as (m.x); the Coq definition free_attr / qualify is the same rule on the scope stack without the AddMap layer"],
     "assumptions": ["the map name m is not rebound inside the program and is not the empty string",
-                    "theorem C16_withmap_is_qualify_partial covers the expression fragment of C03 (operators, parentheses, identifiers, literals, member access, method call, call, index, list literal) under every stack of enclosing binders; the composition through let/func/if/switch/try/closure/map-literal constructs is checked by the correspondence run on every generated program (model parse with AddMap = implementation AST, model parse of the qualified text = implementation AST, both ASTs equal), not proved",
+                    "theorem C16_withmap_is_qualify covers the full grammar (rendering trees of Syn/Full.v: let/func/if/switch/try/closures/list and map literals) under every stack of enclosing binders; C16_withmap_is_qualify_tokens starts from the token list: every token list the parser accepts is the rendering of a tree (C03_parse_sound_full)",
                     "an attribute x is written ( m . x ) with parentheses: m.x(args) would be a method call while x(args) in implicit-attribute mode is a call of the attribute's value",
                     "programs that redeclare a name inside one function body are excluded from the reference-semantics comparison as in C01 (AST equality and outcome equality of the two functions are still checked)"],
     "residue": "",
-    "correspondence_only": ["withmap_is_qualify for the whole grammar (binding constructs, if/switch/try, map literals)",
+    "correspondence_only": [
                             "GenerateWithMap(exp) = Generate(qualified exp) as functions on maps in every representation, optimizer on and off",
                             "reference semantics (Sem/Ref.v) of the qualified surface tree = outcomes of the function GenerateWithMap produced"],
 }
 
 MANIFEST = {
-    "text": "Theorems (Coq, any operator table with distinct binary operators, any generator identifiers B, any stack L of enclosing binders that does not rebind m, no size bound): a lookup through AddMap answers the map exactly for the identifiers that are free attributes by the specification rule (not bound locally, not a constant or static function - stated without the AddMap layer), local bindings and constants shadow attributes, every expression of the C03 fragment parses in implicit-attribute mode to the same AST as its qualified form ( m . x ) parses in plain mode, and closures record the same OuterIdents / Recursive flag in both modes; the pre-repair AddArgs is refuted on l.map(e->e+a). The whole grammar is covered by the correspondence run: C01-generator programs whose arguments become attributes of one map (uses at top level, inside 1..3+ closures, recursive funcs, lets in call arguments; names colliding with pi, sqr, locals) x maps in every representation: real GenerateWithMap(exp) vs real Generate(qualified exp) (outcomes, optimizer on and off; ASTs incl. annotations), parser model with/without the AddMap layer vs both ASTs, reference semantics of the qualified tree vs the observed outcomes.",
+    "text": "Theorems (Coq, any operator table with distinct binary operators, any generator identifiers B, any stack L of enclosing binders that does not rebind m, no size bound): a lookup through AddMap answers the map exactly for the identifiers that are free attributes by the specification rule (not bound locally, not a constant or static function - stated without the AddMap layer), local bindings and constants shadow attributes, every well-formed program of the FULL grammar (let, func, if, switch, try, closures, list and map literals) parses in implicit-attribute mode to the same annotated AST (OuterIdents / Recursive / ThisName included) as its qualified form ( m . x ) parses in plain mode; the pre-repair AddArgs is refuted on l.map(e->e+a). The whole grammar is covered by the correspondence run: C01-generator programs whose arguments become attributes of one map (uses at top level, inside 1..3+ closures, recursive funcs, lets in call arguments; names colliding with pi, sqr, locals) x maps in every representation: real GenerateWithMap(exp) vs real Generate(qualified exp) (outcomes, optimizer on and off; ASTs incl. annotations), parser model with/without the AddMap layer vs both ASTs, reference semantics of the qualified tree vs the observed outcomes.",
     "design_ref": "DESIGN.md section 6 C16",
-    "note": "Whole-grammar withmap_is_qualify is _partial (fragment + capture bookkeeping proved; binding constructs by correspondence). Trusted: Coq kernel + VM, harness, hand-written parser model and C01's reference semantics.",
+    "note": "withmap_is_qualify is proved for the full grammar on well-formed rendering trees (completeness of the parser model for the full grammar + qualification lemma on the scope stack). Trusted: Coq kernel + VM, harness, hand-written parser model and C01's reference semantics.",
     "technique": "Coq proof (scope-stack lemmas + C03 completeness) + vm_compute correspondence run",
 }
